@@ -400,8 +400,14 @@ def wf_with(job_extra='', step_extra='', on='on: push'):
     return ('%s\njobs:\n  j:\n    runs-on: ubuntu-latest\n%s    steps:\n      - run: echo\n%s' % (on, job_extra, step_extra))
 
 
+CALLER = ('on: push\njobs:\n  c:\n    uses: ./.github/workflows/callee.yml\n    with:\n      target: x\n')
+CALLEE_NULL_TAG = ('on:\n  workflow_call:\n    inputs:\n      target: !!null\n        type: string\n        required: false\n'
+                   'jobs:\n  j:\n    runs-on: ubuntu-latest\n    steps:\n      - run: echo\n')
+
+
 def regression_cases():
-    """inputs that made earlier versions of the pinned tree panic (fixed in /repo); kept forever"""
+    """inputs that made earlier versions of the pinned tree panic / accept garbage (fixed in /repo); kept forever.
+    -> [(case, allowed outcomes, site reported if the outcome is outside)]"""
     srcs = [
         wf_with(job_extra='    timeout-minutes: !!float nan\n'),
         wf_with(step_extra='        timeout-minutes: !!float .nan\n'),
@@ -410,7 +416,17 @@ def regression_cases():
         wf_with(on="on:\n  schedule:\n    - cron: 'CRON_TZ=UTC'"),
         wf_with(on="on:\n  schedule:\n    - cron: 'TZ='"),
     ]
-    return [make_case(i, 'workflow', {WF: s}, DISABLE + ['{ROOT}/' + WF]) for i, s in enumerate(srcs)]
+    out = [(make_case(i, 'workflow', {WF: s}, DISABLE + ['{ROOT}/' + WF]), ('diag',), 'undiagnosed:workflow:regression')
+           for i, s in enumerate(srcs)]
+    # `!!null` tagged input mapping of a local reusable workflow (yaml.v3 skips UnmarshalYAML for it)
+    out.append((make_case(len(out), 'reusable', {WF: CALLER, '.github/workflows/callee.yml': CALLEE_NULL_TAG},
+                          DISABLE + ['{ROOT}/' + WF]), ('clean', 'diag'), 'undiagnosed:reusable:regression'))
+    # non-scalar elements of an `ignore:` list used to compile the empty pattern, which ignores every error
+    for elem, exp in (('[a]', ('fatal',)), ('{a: b}', ('fatal',)), ('!!str [a]', ('fatal',)), ('*p', ('clean', 'diag'))):
+        cfg = 'config-variables:\n  - &p FOO\npaths:\n  "**/*.yml":\n    ignore:\n      - %s\n' % elem
+        out.append((make_case(len(out), 'config', {WF: wf_with(), '.github/actionlint.yaml': cfg}, DISABLE + ['{ROOT}/' + WF]),
+                    exp, 'undiagnosed:config:paths.*.ignore[]'))
+    return out
 
 
 TOOLS = ['-shellcheck', '{SELF} robust-tool sc', '-pyflakes', '{SELF} robust-tool py']
@@ -545,11 +561,13 @@ def run(ck, tier):
         raise Inconclusive('%d of %d vectors could not be materialised: %s' % (nunmat, len(allvecs), dict(jd.unmaterialised)))
 
     # fixed inputs: earlier panics of the pinned tree, and scripts around the pipe-buffer size with tools enabled
-    for r, c in zip(run_cases(sd, regression_cases(), 'regr'), regression_cases()):
-        if jd.record(r, 'regression input'):
-            if r['o'] != 'diag':
-                jd.drift['regression input without diagnostic'] += 1
-                jd.drift_ex['regression input without diagnostic'] = show_input(c, 300)
+    regr = regression_cases()
+    for r, (c, exp, site) in zip(run_cases(sd, [c for c, _, _ in regr], 'regr'), regr):
+        if jd.record(r, 'regression input') and r['o'] not in exp:
+            jd.fail.setdefault(site, ['regression input: outcome %s, expected one of %s\n%s' % (r['o'], '/'.join(exp), show_input(c)),
+                                      {'kind': 'case', 'outcome': r['o'], 'channel': c['chan'], 'case': c, 'expected': list(exp),
+                                       'stack_top': '', 'where': 'regression input', 'stderr': '', 'vector': None}, 0])[2] += 1
+    ck.cov['regression_inputs'] = len(regr)
     big = big_script_cases([48 << 10, 60 << 10, 64 << 10, 70 << 10, 200 << 10])
     bouts = run_cases(sd, [c for _, _, c in big], 'big', env={'VERIF_C01_BATCH': '1'})
     for (n, shell, c), r in zip(big, bouts):
@@ -642,6 +660,9 @@ def replay(path):
         print('exit status', p.returncode)
         print(err[:3000])
         bad = p.returncode not in (0, 1, 3) or re.search(r'^(panic: |fatal error: |goroutine \d+ \[)', err, re.M)
+        if rp.get('expected'):
+            got = {0: 'clean', 1: 'diag', 3: 'fatal'}.get(p.returncode)
+            bad = bad or got not in rp['expected']
         print('property', 'VIOLATED' if bad else 'holds')
         return 1 if bad else 0
     finally:
